@@ -7,13 +7,16 @@ PROP = dict(
                        "body_closed_exactly_once", "body_error_no_spool", "body_quiet_ok",
                        "body_drained (MIME detected on exactly the first min(2048,len) bytes)"]),
         dict(driver="discard", binary="zwarc", quick=160, thorough=2000, shard=20,
-             monitors=["discard_iff (exhaustive over status x cf-mitigated shapes)", "discard_reason", "is_challenge_page"]),
+             monitors=["discard_iff (exhaustive over status x cf-mitigated shapes x Server/CDN header and body environments)", "discard_reason", "is_challenge_page",
+                       "hooks_pure (after the chain returned the body reader still yields every byte)",
+                       "hooks_pure (verdicts depend on status and cf-mitigated only, not on Server/other headers or the body)"]),
         # about a third of the warcleg cases run the archiver with --proxy (local SOCKS5 proxy): the proxied WARC client
         # (ClientWithProxy) is then judged by the same monitors, in particular rejected_never_stored (tags proxy:true/false)
         dict(driver="warcleg", binary="zwarc", quick=34, thorough=250, shard=12, noshrink=False,
              monitors=["accepted_stored_byte_exact_after_stop", "written_before_archived (WARC on disk at the arch.written point)",
                        "rejected_never_stored", "members_complete_and_files_finalised",
-                       "all_accepted_written_when_seed_leaves_archiver", "attempts_le", "retry_rule (retry_iff: attempts follow the retry rule)"]),
+                       "all_accepted_written_when_seed_leaves_archiver", "attempts_le", "retry_rule (retry_iff: attempts follow the retry rule)",
+                       "revisit_identical (a revisit only for a payload served for that URL, referring to a stored response with that very payload)"]),
         # end to end: whole real crawls (controler.Start/Stop, local queue, all stages); at the instant a seed is
         # reported finished the WARC files on disk are read with the independent reader (monitor 10)
         dict(driver="pipebodies", quick=14, thorough=600, shard=7, noshrink=True,
